@@ -198,6 +198,13 @@ for tier, insts in (('quick', [I(8, 1), I(8, 3), I(16, 2), I(32, 1), I(64, 1), I
         for sg, T in (('u', i.U), ('i', i.I)):
             add(H('C15', f"c15n_bytes_{sg}_{i.tag}", 'c15n_bytes', f"{i.bytes + 3}, {T}, {i.digit}, {i.n}, {i.bytes}", tier=tier, inst=i.label, crate='harness_nightly', cap=900,
                   funcs=f"{'BUint' if sg == 'u' else 'BInt'} to_be/le/ne_bytes, from_be/le/ne_bytes (bnum feature `nightly`)", bound='all values / all byte arrays, symbolic byte index'))
+for i, lens, tier in ((I(64, 5), (39, 40, 41, 47), 'quick'), (I(32, 5), (18, 23), 'quick'), (I(64, 3), (24, 25, 30), 'thorough'), (I(16, 9), (17, 19, 36), 'thorough'), (I(8, 17), (16, 18, 34), 'thorough'),
+                      (I(64, 17), (136, 137, 130), 'thorough')):
+    for L in lens:
+        for sg, T in (('u', i.U), ('i', i.I)):
+            for e in ('be', 'le'):
+                add(H('C15', f"c15_{e}_slicefix_{sg}_{i.tag}_l{L}", 'c15_slice', f"{max(L, i.n) + 3}, {T}, {i.digit}, {i.n}, {L}, {e}, {L}", tier=tier, inst=i.label, cap=1800, core=False,
+                      funcs=f"{'BUint' if sg == 'u' else 'BInt'}::from_{e}_slice, widths above 128 bits", bound=f'all byte buffers of length exactly {L} ({i.bytes} value bytes); symbolic value byte index'))
 both('C15', 'c15_endian', LIN_Q, LIN_T, group='to_be/from_be/to_le/from_le', bound='all values, symbolic byte index')
 
 
@@ -522,13 +529,16 @@ for sg in ('u', 'i'):
         c10_str(i, sg, 4, 10, 10, 'thorough', cap=3600)
     add(H('C10', f"c10_bytes_{sg}_d8x1", 'c10_bytes', f"6, {I(8, 1).U if sg == 'u' else I(8, 1).I}, u8, 1, 3, 10", inst=I(8, 1).label, cap=1800, core=False, mem_gb=6,
           funcs='parse_bytes (UTF-8 validation + grammar)', bound='all byte strings of length 0..=3, radix 10'))
-for i, sg, L, R, tier in ((I(64, 1), 'u', 20, 10, 'quick'), (I(64, 1), 'i', 20, 10, 'quick'), (I(64, 2), 'u', 33, 16, 'quick'), (I(32, 2), 'i', 17, 16, 'quick'),
-                          (I(64, 2), 'u', 39, 10, 'thorough'), (I(64, 2), 'i', 40, 10, 'thorough'), (I(8, 8), 'u', 21, 10, 'thorough'), (I(16, 4), 'i', 20, 10, 'thorough'), (I(32, 2), 'u', 20, 10, 'thorough'),
-                          (I(32, 3), 'u', 25, 16, 'thorough'), (I(64, 1), 'u', 13, 36, 'thorough'), (I(64, 1), 'i', 41, 3, 'thorough'), (I(64, 2), 'u', 65, 4, 'thorough'), (I(8, 16), 'u', 33, 16, 'thorough'),
-                          (I(16, 8), 'i', 129, 2, 'thorough')):
+for i, sg, L, R, first, tier in ((I(64, 1), 'u', 20, 10, '1', 'thorough'), (I(64, 1), 'u', 19, 10, '9', 'quick'), (I(64, 1), 'i', 20, 10, '-', 'quick'), (I(64, 2), 'u', 33, 16, '0', 'quick'), (I(32, 2), 'i', 17, 16, '+', 'quick'),
+                                 (I(64, 1), 'u', 21, 10, '+', 'thorough'), (I(64, 1), 'u', 21, 10, '0', 'thorough'), (I(64, 1), 'i', 20, 10, '+', 'thorough'), (I(64, 1), 'i', 19, 10, '9', 'thorough'), (I(16, 4), 'u', 19, 10, '7', 'thorough'),
+                                 (I(64, 2), 'u', 39, 10, '3', 'thorough'), (I(64, 2), 'i', 40, 10, '-', 'thorough'), (I(8, 8), 'u', 21, 10, '0', 'thorough'), (I(16, 4), 'i', 20, 10, '-', 'thorough'),
+                                 (I(32, 2), 'u', 20, 10, '1', 'thorough'), (I(32, 3), 'u', 25, 16, '+', 'thorough'), (I(64, 1), 'u', 13, 36, '3', 'thorough'), (I(64, 1), 'i', 41, 3, '-', 'thorough'),
+                                 (I(64, 2), 'u', 65, 4, '0', 'thorough'), (I(8, 16), 'u', 33, 16, '+', 'thorough'), (I(16, 8), 'i', 129, 2, '-', 'thorough'), (I(64, 2), 'u', 32, 16, 'f', 'thorough')):
     T = i.U if sg == 'u' else i.I
-    add(H('C10', f"c10_strfix_{sg}_{i.tag}_r{R}_l{L}", 'c10_str_fixed', f"{L + 3}, {T}, {i.digit}, {i.n}, {L}, {R}", tier=tier, cap=1800 if tier == 'quick' else 5400, inst=i.label, core=False, mem_gb=8,
-          funcs=f"{'BUint' if sg == 'u' else 'BInt'}::from_str_radix, full-capacity strings", bound=f'all ASCII strings of length exactly {L} (capacity of the type, incl. a sign / leading zero / one digit too many), radix {R}; u128 reference parser'))
+    fn = {'+': 'plus', '-': 'minus'}.get(first, first)
+    add(H('C10', f"c10_strfix_{sg}_{i.tag}_r{R}_l{L}_{fn}", 'c10_str_fixed', f"{L + 3}, {T}, {i.digit}, {i.n}, {L}, {R}, b'{first}'", tier=tier, cap=1800 if tier == 'quick' else 5400, inst=i.label, core=False, mem_gb=8,
+          funcs=f"{'BUint' if sg == 'u' else 'BInt'}::from_str_radix, full-capacity strings",
+          bound=f"all ASCII strings of length exactly {L} whose first byte is '{first}' (capacity of the type, incl. a sign / leading zero / one digit too many), radix {R}; u128 reference parser"))
 c10_digits(I(8, 1), 'u', 10, 2, 2, 'quick', core=True)
 c10_digits(I(8, 1), 'u', 4, 16, 16, 'quick', core=True)
 c10_digits(I(8, 1), 'u', 4, 10, 10, 'quick')
@@ -599,6 +609,15 @@ for i, R, lg, top, tier in ((I(64, 5), 256, 8, '1', 'quick'), (I(64, 5), 16, 4, 
     add(H('C11', f"c11_wide_{i.tag}_r{R}", 'c11_wide', f"{max(n, i.n) + 3}, {i.U}, {i.digit}, {i.n}, {R}, {lg}, {top}", tier=tier, cap=1800, inst=i.label, core=False, mem_gb=10,
           funcs='BUint::to_radix_le / to_radix_be, power-of-two radix (to_bitwise_digits_le / to_inexact_bitwise_digits_le), widths above 128 bits',
           bound=f'all values whose most significant digit is {top} (all lower digits symbolic), radix {R}; symbolic output position'))
+for i, R, top, tier in ((I(64, 3), 10, 'u64::MAX', 'thorough'), (I(64, 3), 10, '1', 'thorough'), (I(32, 5), 10, '0xffff_ffff', 'thorough'), (I(16, 9), 3, '1', 'thorough'), (I(8, 17), 3, '0xff', 'thorough'),
+                       (I(64, 3), 36, '1', 'thorough'), (I(32, 5), 255, '7', 'thorough')):
+    tv = int(eval(top.replace('u64::MAX', str(2**64-1)).replace('_', '')))
+    bits = (i.n - 1) * i.dbits + tv.bit_length()
+    maxd = len(_digits_in(2 ** bits - 1, R)) if False else int(math.floor(bits / math.log2(R))) + 1
+    L64 = -(-i.bits // 64)
+    add(H('C11', f"c11_widegen_{i.tag}_r{R}_{'max' if 'MAX' in top or 'ff' in top else 't' + str(tv)}", 'c11_wide_gen', f"{max(maxd, i.n, 20) + 3}, {i.U}, {i.digit}, {i.n}, {R}, {maxd}, {L64}, {top}", tier=tier, cap=5400, inst=i.label, core=False, mem_gb=16,
+          funcs='BUint::to_radix_le / to_radix_be, general radix (to_radix_digits_le: repeated division by radix^power), widths above 128 bits',
+          bound=f'all values whose most significant digit is {top} (all lower digits symbolic), radix {R}; Horner oracle in exact limb arithmetic'))
 add(H('C11', "c11_radix_panic_d8x1", 'c11_radix_panic', f"12, {I(8, 1).U}, {I(8, 1).I}", inst=I(8, 1).label, kind='panic', cap=1800, core=False,
       funcs='to_radix_le/be, to_str_radix with an out-of-range radix', bound='radices 0, 1, 37 / 257, u32::MAX'))
 
@@ -619,6 +638,17 @@ for i in (I(8, 3), I(16, 2)):
     for sg, T in (('u', i.U), ('i', i.I)):
         add(H('C20', f"c20_range_alpha_{sg}_{i.tag}", 'c20_range', f"{i.bytes + 4}, {T}, {i.digit}, {i.n}, any_alpha", tier='thorough', cap=10800, inst=i.label, core=False, mem_gb=16,
               funcs='range membership on a type wider than 16 bits (the approximate-zone branch of sample_single_inclusive)', bound='bounds with digits over the boundary alphabet, all RNG streams with at most 2 rejections'))
+C20_CONC = [
+    (I(64, 2), 'u', 'small', [0, 0], [2, 0], 'quick'), (I(64, 2), 'u', 'cross', [5, 0], [4, 1], 'quick'), (I(64, 2), 'u', 'full', [0, 0], [0xffffffffffffffff, 0xffffffffffffffff], 'quick'),
+    (I(64, 2), 'i', 'span0', [0xfffffffffffffffd, 0xffffffffffffffff], [7, 0], 'quick'), (I(64, 2), 'i', 'full', [0, 0x8000000000000000], [0xffffffffffffffff, 0x7fffffffffffffff], 'thorough'),
+    (I(64, 2), 'u', 'pow2p1', [0, 0], [0, 0x8000000000000000], 'thorough'), (I(8, 3), 'u', 'mid', [0x10, 0, 0], [0x0f, 0x80, 0x7f], 'quick'), (I(32, 3), 'i', 'span0', [0xffff0000, 0xffffffff, 0xffffffff], [0x1234, 1, 0], 'thorough'),
+    (I(64, 3), 'u', 'wide', [1, 0, 0], [0, 0, 1], 'thorough'), (I(16, 2), 'u', 'odd', [3, 0], [0xfffe, 0x7fff], 'quick'),
+]
+for i, sg, tag, lo, hi, tier in C20_CONC:
+    T = i.U if sg == 'u' else i.I
+    add(H('C20', f"c20_range_conc_{sg}_{i.tag}_{tag}", 'c20_range', f"{i.bytes + 4}, {T}, {i.digit}, {i.n}, [{', '.join(hex(v) for v in lo)}], [{', '.join(hex(v) for v in hi)}]", tier=tier, cap=1800, inst=i.label, core=False, mem_gb=8,
+          funcs=f"{'BUint' if sg == 'u' else 'BInt'} gen_range / Uniform / sample_single(_inclusive) on a type wider than 16 bits",
+          bound=f'concrete bounds ({tag}), all RNG streams with at most 2 rejections (3 draws); result inside the range'))
 for i, tier in ((I(8, 1), 'quick'), (I(8, 3), 'quick'), (I(64, 2), 'quick'), (I(16, 2), 'thorough'), (I(32, 3), 'thorough'), (I(64, 1), 'thorough'), (I(64, 3), 'thorough')):
     add(H('C20', f"c20_fill_{i.tag}", 'c20_fill', f"{3 * i.bytes + 3}, {i.U}, {i.I}, {i.digit}, {i.n}", tier=tier, cap=1800, inst=i.label, mem_gb=6,
           funcs='Standard (rng.gen) for BUint/BInt, Fill / try_fill_slice for slices of length 0..=3', bound='all RNG streams, symbolic byte index'))
@@ -687,33 +717,31 @@ def c12_radix(i, sg, kind, fv, tier, cap=900, core=False, gen='any'):
     tr, lg, up, pc, dm = C12_KINDS[kind]
     T = i.U if sg == 'u' else i.I
     maxlen = -(-i.bits // lg)
-    fl, W, P, A, Z, F, AL = C12_FLAGS[fv]
     stubs = [C12_PAD]
     if not dm:
         stubs += [f"kani::stub(bnum::{DIG[i.digit][2]}::to_str_radix, crate::c12::tsr_{i.digit})"]
     if dm:
         stubs += [f'kani::stub(std::string::String::new, crate::c12::cap{_cap(maxlen)})', f'kani::stub(<{i.digit} as core::fmt::{tr}>::fmt, crate::c12::{dm}_{i.digit})', f'kani::stub(<u128 as core::fmt::{tr}>::fmt, crate::c12::{dm}_u128)']
-    unw = max(maxlen, -(-i.dbits // lg) if dm else 0, i.n, C12_FW[fv]) + 3
-    add(H('C12', f"c12_{ {'b': 'bin', 'x': 'lhex', 'X': 'uhex', 'o': 'oct'}[kind]}_{sg}_{i.tag}_f{fv}" + ('' if gen == 'any' else '_alpha'), 'c12_radix',
-          f"{unw}, {T}, {i.digit}, {i.n}, {lg}, {up}, {pc}, {maxlen}, \"{kind}\", \"{{:{fl}{kind}}}\", \"{{:{fl}}}\", {W}, {P}, {A}, {Z}, {F}, {AL}, {gen}, [{', '.join(stubs)}]",
+    unw = max(maxlen, -(-i.dbits // lg) if dm else 0, i.n, 16) + 3
+    add(H('C12', f"c12_{ {'b': 'bin', 'x': 'lhex', 'X': 'uhex', 'o': 'oct'}[kind]}_{sg}_{i.tag}" + ('' if gen == 'any' else '_alpha'), 'c12_radix',
+          f"{unw}, {T}, {i.digit}, {i.n}, {lg}, {up}, {pc}, {maxlen}, \"{kind}\", core::fmt::{tr}, {gen}, [{', '.join(stubs)}]",
           tier=tier, cap=cap, inst=i.label, stub=True, core=core, mem_gb=8,
-          funcs=f"{'BUint' if sg == 'u' else 'BInt'} core::fmt::{tr} (format spec {{:{fl}{kind}}})",
-          bound=('all values' if gen == 'any' else 'every digit over the boundary alphabet') + f'; symbolic character index; the (sign, prefix, numeral) triple handed to pad_integral + option pass-through; unwind {unw}'))
+          funcs=f"{'BUint' if sg == 'u' else 'BInt'} core::fmt::{tr}",
+          bound=('all values' if gen == 'any' else 'every digit over the boundary alphabet') + f'; all formatter options (width None / 0..=16, ASCII fill, alignment, +, #, 0 symbolic); symbolic character index; the (sign, prefix, numeral) triple handed to pad_integral + option pass-through; unwind {unw}'))
 
 
 def c12_dec(i, sg, kind, fv, tier, cap=1800, core=False):
     T = i.U if sg == 'u' else i.I
     ch, tr = {0: ('', 'Display'), 1: ('?', 'Debug'), 2: ('e', 'LowerExp'), 3: ('E', 'UpperExp')}[kind]
-    fl, W, P, A, Z, F, AL = C12_FLAGS[fv]
     nd = len(str(2 ** i.bits - 1))
     stubs = [C12_PAD, f"kani::stub(bnum::{DIG[i.digit][2]}::to_str_radix, crate::c12::tsr_{i.digit})"]
     if kind >= 2:
         stubs.append('kani::stub(core::str::slice_error_fail_rt, crate::c12::slice_error_fail_stub)')
         stubs.append('kani::stub(core::result::unwrap_failed, crate::c12::unwrap_failed_stub)')
-    add(H('C12', f"c12_{tr.lower()}_{sg}_{i.tag}_f{fv}", 'c12_dec', f"{max(nd + 6, C12_FW[fv]) + 3}, {T}, {i.digit}, {i.n}, {nd}, {kind}, \"{ch}\", \"{{:{fl}{ch}}}\", \"{{:{fl}}}\", {W}, {P}, {A}, {Z}, {F}, {AL}, [{', '.join(stubs)}]",
+    add(H('C12', f"c12_{tr.lower()}_{sg}_{i.tag}", 'c12_dec', f"{(max(nd + 6, 16) + 3) if kind < 2 else nd + 6}, {T}, {i.digit}, {i.n}, {nd}, {kind}, \"{ch}\", core::fmt::{tr}, [{', '.join(stubs)}]",
           tier=tier, cap=cap, inst=i.label, stub=True, core=core, mem_gb=12,
-          funcs=f"{'BUint' if sg == 'u' else 'BInt'} core::fmt::{tr} (format spec {{:{fl}{ch}}})",
-          bound='all values; symbolic character index; the (sign, prefix, numeral) triple handed to pad_integral + option pass-through'))
+          funcs=f"{'BUint' if sg == 'u' else 'BInt'} core::fmt::{tr}",
+          bound='all values; all formatter options (width None / 0..=16, ASCII fill, alignment, +, #, 0 symbolic); symbolic character index; the (sign, prefix, numeral) triple handed to pad_integral + option pass-through'))
 
 
 for i, sg, kind, fv, tier in ((I(8, 2), 'u', 'x', 1, 'quick'), (I(8, 3), 'i', 'x', 2, 'quick'), (I(16, 2), 'u', 'x', 3, 'quick'), (I(32, 2), 'i', 'x', 1, 'quick'), (I(64, 2), 'u', 'x', 4, 'quick'),
@@ -726,12 +754,14 @@ for i, sg, kind, fv, tier in ((I(8, 2), 'u', 'x', 1, 'quick'), (I(8, 3), 'i', 'x
                               (I(8, 3), 'u', 'b', 1, 'thorough'), (I(16, 2), 'u', 'b', 2, 'thorough'), (I(32, 1), 'u', 'b', 3, 'thorough'), (I(64, 1), 'i', 'b', 1, 'thorough'), (I(32, 2), 'i', 'b', 0, 'thorough'),
                               (I(64, 2), 'u', 'b', 4, 'thorough'), (I(8, 2), 'i', 'b', 1, 'thorough'),
                               (I(16, 1), 'i', 'o', 1, 'thorough'), (I(32, 1), 'u', 'o', 2, 'thorough'), (I(64, 1), 'i', 'o', 0, 'thorough')):
-    c12_radix(i, sg, kind, fv, tier, cap=900 if tier == 'quick' else 3600, core=(tier == 'quick' and i.bits <= 64))
+    if not any(h.name == f"c12_{ {'b': 'bin', 'x': 'lhex', 'X': 'uhex', 'o': 'oct'}[kind]}_{sg}_{i.tag}" for h in REG):
+        c12_radix(i, sg, kind, fv, tier, cap=900 if tier == 'quick' else 3600, core=(tier == 'quick' and i.bits <= 64))
 for i, sg, kind, fv, tier in ((I(8, 1), 'u', 0, 1, 'quick'), (I(8, 1), 'i', 0, 3, 'quick'), (I(8, 1), 'u', 1, 2, 'quick'), (I(8, 1), 'i', 1, 5, 'quick'), (I(8, 2), 'i', 0, 5, 'quick'),
                               (I(16, 1), 'u', 0, 2, 'quick'),
                               (I(8, 1), 'u', 2, 0, 'thorough'), (I(8, 1), 'i', 2, 2, 'thorough'), (I(8, 1), 'u', 3, 3, 'thorough'), (I(8, 1), 'i', 3, 5, 'thorough'),
                               (I(32, 1), 'i', 0, 1, 'thorough'), (I(64, 1), 'u', 0, 3, 'thorough'), (I(32, 2), 'i', 1, 0, 'thorough'), (I(8, 2), 'i', 2, 1, 'thorough')):
-    c12_dec(i, sg, kind, fv, tier, cap=1800 if tier == 'quick' else 7200, core=(tier == 'quick' and i.bits <= 8))
+    if not any(h.name == f"c12_{ {0: 'display', 1: 'debug', 2: 'lowerexp', 3: 'upperexp'}[kind]}_{sg}_{i.tag}" for h in REG):
+        c12_dec(i, sg, kind, fv, tier, cap=1800 if tier == 'quick' else 7200, core=(tier == 'quick' and i.bits <= 8))
 
 
 def by_prop(p):
